@@ -22,6 +22,7 @@ RULE = ("programs over the defined opcode set (read from bits.script.constants a
 ASSUMPTIONS = ["vf/ref/script_ref.py push rules (minimal push for the length); opcode aliases that share a byte are identified",
                "a one-byte data item is a data push (no BIP62 minimal-number rule)"]
 OBLIGATIONS = {
+    "template_lookalike": "a canonical script with the length and the end bytes of a standard template but another structure",
     "concurrent_calls": "interleavings of two concurrent calls (single-case checks in two threads, cold and after warm-up calls)",
     "long_history": "operations executed in one long history (>= 1000 distinct operations, forward / forward / reverse)",
     "interrupted_calls": "interruption points explored (an earlier call cut short by an asynchronous exception, then ordinary calls)",
@@ -131,6 +132,11 @@ def chk_witness(case):
     dec = call(bs.decode_script, exp + tail, witness=True)
     if dec[0] != "ok" or not isinstance(dec[1], tuple) or list(dec[1][0]) != [i.hex() for i in items] or dec[1][1] != tail:
         return [(f"C13/witness/parse/{cls}", f"decode_script(stack {case['lens']} + {len(tail)}B tail, witness=True) = {str(dec)[:160]}")]
+    if len(items) <= 64:
+        from vf.edits import aliasing
+        why = aliasing(lambda: bs.decode_script(exp + tail, witness=True))
+        if why:
+            return [("C13/witness/aliased-result", f"decode_script(stack {case['lens']}, witness=True) after the caller edited the first result: {why}")]
     return []
 
 
@@ -300,7 +306,7 @@ def run_job(job):
         from vf.runner import run_concur_job
         ops = seq_ops(dict(job, shard=[0, 1]))
         scens = [{"threads": [ops[i] for i in sc[0]], "warm": [ops[i] for i in sc[1]], "post": [ops[i] for i in (sc[2] if len(sc) > 2 else ())]} for sc in CONCUR_SCEN]
-        return run_concur_job(job, scens, run_case, PROPERTY, CONCUR_FILES)
+        return run_concur_job(job, scens, run_case, PROPERTY, CONCUR_FILES, alphabet=ops)
     if job["part"] == "longhist":
         from vf.runner import run_long_job, default_long_ops
         return run_long_job(job, default_long_ops(seq_ops, job), run_case)
@@ -387,6 +393,27 @@ def run_job(job):
             acc.check("witness", {"seed": seed, "lens": [1 + (j % 3) for j in range(n)], "tail": "00"}, chk_witness)
         acc.sample({"long_programs": [950, 1050, 1500, 5000]})
     elif part == "seq3":
+        # canonical scripts that have the LENGTH and the first / last bytes of a standard template but another structure (a
+        # disassembler that recognises templates by length and fixed bytes takes them for the template)
+        lookalikes = [
+            [["data", 33], ["op", "OP_CHECKSIGVERIFY"], ["data", 30], ["op", "OP_CHECKSIG"]],      # 67 B, 21 .. ac  (P2PK with a 65-byte key)
+            [["data", 33], ["op", "OP_DROP"], ["data", 30], ["op", "OP_CHECKSIG"]],
+            [["data", 31], ["op", "OP_DROP"], ["op", "OP_CHECKSIG"]],                               # 35 B .. ac
+            [["op", "OP_DUP"], ["op", "OP_HASH160"], ["data", 10], ["data", 9], ["op", "OP_EQUALVERIFY"], ["op", "OP_CHECKSIG"]],   # 25 B P2PKH frame
+            [["op", "OP_DUP"], ["op", "OP_HASH160"], ["data", 19], ["op", "OP_0"], ["op", "OP_EQUALVERIFY"], ["op", "OP_CHECKSIG"]],
+            [["op", "OP_HASH160"], ["data", 10], ["data", 9], ["op", "OP_EQUAL"]],                  # 23 B P2SH frame
+            [["op", "OP_HASH160"], ["data", 19], ["op", "OP_0"], ["op", "OP_EQUAL"]],
+            [["op", "OP_0"], ["data", 10], ["data", 9]], [["op", "OP_0"], ["data", 16], ["data", 15]],            # 22 / 34 B witness programs
+            [["op", "OP_1"], ["data", 16], ["data", 15]], [["op", "OP_0"], ["data", 19], ["op", "OP_0"]], [["op", "OP_0"], ["data", 31], ["op", "OP_0"]],
+            [["op", "OP_RETURN"], ["data", 20], ["data", 20]], [["op", "OP_1"], ["data", 33], ["op", "OP_1"], ["op", "OP_CHECKMULTISIG"]],
+            [["op", "OP_1"], ["data", 32], ["op", "OP_0"], ["op", "OP_1"], ["op", "OP_CHECKMULTISIG"]],
+            [["op", "OP_2"], ["data", 33], ["data", 32], ["op", "OP_0"], ["op", "OP_2"], ["op", "OP_CHECKMULTISIG"]],
+        ]
+        for p in lookalikes:
+            acc.evaluations += 1
+            acc.nontrivial += 1
+            acc.ob("template_lookalike")
+            acc.check("prog", {"seed": seed, "prog": p}, chk_prog)
         alpha = [["op", "OP_DUP"], ["op", "OP_0"], ["op", "OP_16"], ["op", "OP_CHECKSIG"], ["data", 1], ["data", 75], ["data", 76],
                  ["data", 255], ["data", 256]]
         for n in (0, 1, 2, 3):
